@@ -2,7 +2,7 @@
 # tools/new_mutant.sh <name> <property-id>: scratch worktree of /repo HEAD + prompt file for a sub-agent
 # (the prompt contains only the property text; nothing from /verif).
 n=$1; p=$2
-git -C /repo worktree add --detach /tmp/mut/$n HEAD -q || exit 1
+mkdir -p /tmp/mut; git -C /repo worktree add --detach /tmp/mut/$n HEAD -q || exit 1
 python3 - "$n" "$p" <<'PY'
 import json,sys
 n,p=sys.argv[1:3]
@@ -10,7 +10,7 @@ for l in open('/verif/properties.jsonl'):
     d=json.loads(l)
     if d['id']==p:
         text="%s: %s\n\n%s\n\nQuantified over: %s" % (d['id'], d['title'], d['statement'], d['quantifier']['text'])
-t=open('/tmp/mut/PROMPT.txt').read().replace('WORKTREE','/tmp/mut/'+n).replace('PROPERTY',text)
+t=open('/verif/tools/mutant_prompt.txt').read().replace('WORKTREE','/tmp/mut/'+n).replace('PROPERTY',text)
 open('/tmp/mut/%s.prompt'%n,'w').write(t)
 PY
 echo /tmp/mut/$n.prompt
